@@ -29,6 +29,7 @@ from props import c03 as J
 LEAN_MODULE = "Optyx.Props.C19"
 THEOREMS = [
     "Optyx.Props.Closures.closureTables_agree",
+    "Optyx.Props.Closures.sanitizeShape_agrees",
     "Optyx.Props.C19.sanitize_spec",
     "Optyx.Props.C19.sanitize_finite",
     "Optyx.Props.C19.derivative_outputs_finite",
